@@ -299,3 +299,38 @@ MANIFEST_TEXT["C10"] = dict(
     technique="property-based testing + small-scope exhaustive enumeration of (text, minLen, maxLen) against brute-force prefix groups over all suffix pairs",
     level="Exploration with an exhaustive small-scope part; the oracle checks both directions (soundness of every callback, completeness and uniqueness for every pair).",
     note=NOTE_PBT)
+
+CHECKS["C11"] = dict(
+    {"quick": {"tests": [{"test": "TestC11", "checks": 30000, "subchecks": 1}]},
+     "thorough": {"shards": 16, "tests": [{"test": "TestC11", "checks": 200000, "subchecks": 1}]}},
+    rule=("OSAP histories (Write, ReadFrom, Parse, Shrink, Reset; 1..4 fills; buffers up to 120 bytes; MinMatchLen 2..8, "
+          "MaxMatchLen Min..Min+20 or 273 or default; windows smaller/equal/larger than the buffer; BlockSize 1..). For "
+          "every block parsed with flags 0 an independent O(n*window*len) dynamic program over the same bytes (literal 9 "
+          "bits, lz.XZCost per match, lengths in [Min,Max] clipped at the block end, offsets <= WindowSize, sources inside "
+          "the data still buffered) gives the optimum; the block's cost must equal it. Non-trivial: a block that is "
+          "neither all literals nor a single match without literals (>= 2 sequences, or a sequence plus literals)."),
+    assumptions=ASSUME_COMMON + ["the cost function is the exported lz.XZCost with 9 bits per literal, as the property states"],
+)
+MANIFEST_TEXT["C11"] = dict(
+    engine="parser-history",
+    technique="differential property-based testing (rapid) of OSAP against an independent brute-force optimal-parse dynamic program",
+    level="Generated-history exploration with an exact optimality oracle on small buffers (the DP is exhaustive over all legal parses of each block).",
+    note=NOTE_PBT)
+
+CHECKS["C12"] = dict(
+    {"quick": {"tests": [{"test": "TestC12", "checks": 20000, "subchecks": 1}]},
+     "thorough": {"shards": 16, "tests": [{"test": "TestC12", "checks": 100000, "subchecks": 1}]}},
+    rule=("GSAP histories without Parse(nil) (Write, ReadFrom, Parse both flags, Shrink, Reset(nil), Reset(data); explicit "
+          "mass on Parse(NoTrailingLiterals) directly followed by another Parse; buffers 1..700 bytes, both BufferSize <= "
+          "WindowSize and >; MinMatchLen 2..8). Oracle: brute-force longest previous match over the data still buffered, "
+          "clipped at the block end: every emitted match has exactly that length; with BufferSize <= WindowSize every "
+          "literal position has no earlier match of at least MinMatchLen. Non-trivial: a block with a match parsed after "
+          "the second or a later suffix array build (after Shrink>0, refill or Reset of a used parser), or a block parsed "
+          "directly after a NoTrailingLiterals block that was cut short without a rebuild in between."),
+    assumptions=ASSUME_COMMON,
+)
+MANIFEST_TEXT["C12"] = dict(
+    engine="parser-history",
+    technique="differential property-based testing (rapid) of GSAP against a brute-force longest-previous-match oracle",
+    level="Generated-history exploration with an exact oracle for match lengths and for literals (when the buffer fits the window).",
+    note=NOTE_PBT)
